@@ -215,7 +215,9 @@ def history_case(draw):
     )
     ops = draw(st.lists(op_s, min_size=2, max_size=10))
     return {"H": H, "inputs": inputs, "uls": uls, "ders": ders, "ops": [list(o) for o in ops], "model_seed": draw(seed_s),
-            "model": draw(st.sampled_from(["linear", "recurrent", "mlp"])), "crit": draw(st.sampled_from(["entropic_rm", "es"]))}
+            "model": draw(st.sampled_from(["linear", "recurrent", "mlp", "mlp_leaky"])), "crit": draw(st.sampled_from(["entropic_rm", "es"])),
+            # none of these models has a layer whose output depends on the train/eval mode: the reference hedger may be in the other mode
+            "flip_ref": draw(st.booleans())}
 
 
 def _build_inputs(names, dtype):
@@ -257,6 +259,17 @@ def check_history(case, ctx):
         model = torch.nn.Linear(n_feat, H)
     elif case["model"] == "mlp":
         model = MultiLayerPerceptron(n_feat, H, n_layers=2, n_units=3)
+    elif case["model"] == "mlp_leaky":
+        from pfhedge.nn import LeakyClamp
+
+        class Band(torch.nn.Module):  # a leaky no-transaction band with fixed bounds (pfhedge's LeakyClamp)
+            def __init__(self):
+                super().__init__()
+                self.clamp = LeakyClamp(0.1)
+
+            def forward(self, input):
+                return self.clamp(input, -0.05, 0.1)
+        model = torch.nn.Sequential(MultiLayerPerceptron(n_feat, H, n_layers=1, n_units=3), Band())
     else:
         model = Recurrent(n_feat, H)
     crit = EntropicRiskMeasure() if case["crit"] == "entropic_rm" else ExpectedShortfall(0.4)
@@ -267,7 +280,7 @@ def check_history(case, ctx):
 
     def fresh():
         f = Hedger(copy.deepcopy(hedger.model), _build_inputs(case["inputs"], cur_dtype), criterion=copy.deepcopy(hedger.criterion))
-        f.train(hedger.training)
+        f.train(hedger.training != bool(case.get("flip_ref")))
         for p_ in f.parameters():
             p_.grad = None  # gradients left by the caller's own backward passes are not parameters
         return f
@@ -295,6 +308,7 @@ def check_history(case, ctx):
         kind = o[0]
         label = f"op#{step} {o}"
         held = hold() if kind in ("simulate", "compute_loss", "price", "fit", "backward") else []
+        modes_before = [(n_, m_.training) for n_, m_ in hedger.named_modules()]
         if kind == "simulate":
             _, i, n, seed = o
             torch.manual_seed(seed)
@@ -384,6 +398,12 @@ def check_history(case, ctx):
                     return
         if held and not held_intact(held, label):
             return
+        if kind not in ("fit", "mode"):
+            # evaluating leaves the train/eval mode of the hedger (and of everything inside it) as the caller set it
+            modes_after = [(n_, m_.training) for n_, m_ in hedger.named_modules()]
+            if not ctx.check(modes_after == modes_before, "C16/history-dependence",
+                             f"{label} changed the train/eval mode of the hedger: later results depend on this call having been made"):
+                return
     ctx.nontrivial((len(used) >= 2 and "prev_hedge" in case["inputs"]) or (computed >= 1 and any("log" in n for n in case["inputs"])))
     ctx.cls("derivs-used:%d" % len(used), "H:%d" % H, "state-dependent:" + str("prev_hedge" in case["inputs"]),
             "ops:%d" % len(case["ops"]), "model:" + case["model"])
